@@ -39,7 +39,7 @@ theorem checkNonce_ok {now c n} : CheckNonce now c n = .ok () ↔ c.nonce = n :=
 
 
 theorem checkExpiration_ok {now c off} : CheckExpiration now c off = .ok () ↔ now + off < ns c.exp := by
-  go_char CheckExpiration Claims.GetExpiration Go.ok tBefore tAdd
+  go_char CheckExpiration Claims.GetExpiration Go.ok tBefore tAfter tAdd
 
 theorem checkACR_ok {now c acr} :
     CheckAuthorizationContextClassReference now c acr = .ok () ↔ (∀ f, acr = some f → f c.acr = .ok ()) := by
@@ -56,14 +56,16 @@ theorem checkIssuedAt_ok {now c maxIAT off} :
     CheckIssuedAt now c maxIAT off = .ok () ↔
       (ns c.iat ≠ zeroTime ∧ ns c.iat ≤ tRound (now + off) second ∧
         (maxIAT = 0 ∨ ns c.iat ≥ tRound (now - maxIAT) second)) := by
-  unfold CheckIssuedAt Claims.GetIssuedAt Go.ok tBefore tAfter tAdd tIsZero
+  unfold CheckIssuedAt
+  go_unfold Claims.GetIssuedAt Go.ok tBefore tAfter tAdd tIsZero
   simp only [ns, Int.sub_eq_add_neg]
   go_leaf
 
 theorem checkAuthTime_ok {now c maxAge} :
     CheckAuthTime now c maxAge = .ok () ↔
       (maxAge = 0 ∨ (ns c.authTime ≠ zeroTime ∧ ns c.authTime ≥ tRound (now - maxAge) second)) := by
-  unfold CheckAuthTime Claims.GetAuthTime Go.ok tBefore tAdd tIsZero
+  unfold CheckAuthTime
+  go_unfold Claims.GetAuthTime Go.ok tBefore tAfter tAdd tIsZero
   simp only [ns, Int.sub_eq_add_neg]
   go_leaf
 
